@@ -461,6 +461,49 @@ def c19_convert(run):
     except (I.OutOfSubset, I.PyRaise) as e:
         run.obligation(name, "out-of-subset", detail=str(e))
         return
+    # vocabulary: every terminal of the Lark grammar - ignored ones included, they may also occur explicitly in a rule - is a terminal
+    # of the converted grammar (else renumber() turns the occurrence into a nonterminal without rules and the derivations vanish)
+    name_v = "C19/lark_interface.LarkStuff.convert/vocabulary"
+    try:
+        made = {}
+
+        class Cfg2:
+            def __pyvc_getattr__(self, interp, nm, node):
+                if nm == "add":
+                    return I.Native("add", lambda i2, a, kw: None)
+                if nm == "renumber":
+                    return I.Native("renumber", lambda i2, a, kw: self)
+                raise I.OutOfSubset("cfg." + nm)
+
+        def mk(i2, a, kw):
+            made.update(kw)
+            return Cfg2()
+
+        nm_ = lambda n: Bag(name=n)   # noqa: E731
+        it = I.Interp(I.Path([]))
+        g = {"Rule": I.Native("Rule", lambda i2, a, kw: Bag(w=a[0], head=a[1], body=a[2])), "Counter": I.Native("Counter", lambda i2, a, kw: dict(Counter(a[0]))),
+             "CFG": I.Native("CFG", mk), "Float": "Float"}
+        selfobj = Bag(rules=[Bag(lhs=nm_("start"), rhs=[nm_("T0"), nm_("WS"), nm_("T1")])], terminals=[nm_("T0"), nm_("WS"), nm_("T1")],
+                      ignore_terms=["WS"], ignore_regex="(?:WS)?")
+        it.call_func(I.FuncObj(fn, I.Env(None, g), "LarkStuff.convert"), [selfobj], {})
+        V = made.get("V")
+        if isinstance(V, (set, frozenset)) and set(V) == {"T0", "WS", "T1"} and made.get("S") == "start" and made.get("R") == "Float":
+            run.obligation(name_v, "proved", backend="pyvc", detail="V = names of all terminals (ignored ones included), S = 'start', R = Float")
+        else:
+            replay = dict(replayed=False, V=repr(V), S=repr(made.get("S")))
+            try:
+                from genlm.grammar.lark_interface import LarkStuff
+                gtext = 'start: "a" (WS "b")* "c"\nWS: " "\n%ignore WS\n'
+                cfg = LarkStuff(gtext).char_cfg()
+                got = float(cfg("a bc"))
+                replay.update(input=gtext, string="a bc", weight=got, expected="non-zero (the explicit WS occurrence is a terminal)")
+                replay["replayed"] = got == 0.0
+            except Exception as e:  # noqa: BLE001
+                replay.update(native_error=repr(e), replayed=True)
+            run.obligation(name_v, "refuted", backend="pyvc", detail=f"converted vocabulary {sorted(V) if isinstance(V, (set, frozenset)) else V!r} != all terminal names",
+                           replay=replay, signature="convert:vocabulary")
+    except (I.OutOfSubset, I.PyRaise) as e:
+        run.obligation(name_v, "out-of-subset", detail=str(e))
     if ok:
         run.obligation(name, "proved", backend="pyvc (exact rationals)", detail="k = 1, 2, 3, 5 rules per left-hand side: weight 1/k each, sum exactly one")
     else:
